@@ -53,7 +53,7 @@ def make_inputs(rng, kind):
     if kind == "valid_single":
         prog = pngen.generate(rng, n_funcs=rng.randint(2, 6))
         # source files need not be called *.pn
-        name = rng.choice(["main.pn"] * 5 + ["prog.penne", "prog", "my.prog.txt", "sub/dir/deep.pn"])
+        name = rng.choice(["main.pn"] * 5 + ["prog.penne", "prog", "my.prog.txt", "sub/dir/deep.pn", "a.b.pn", ".hidden.pn", "dir.d/x.y.pn"])
         return {name: prog.single_file().encode()}, [name], True, True, [name]
     if kind in ("valid_multi", "invalid_multi"):
         prog = pngen.generate(rng, n_funcs=rng.randint(3, 7))
